@@ -431,6 +431,31 @@ def localCallOK (env : Env) (file : AFile) (G : List String) (Γ : Ctx) (f : Imm
      | _ => false)
   | _ => false
 
+/-- the name of the `apply` function of the closure-environment struct `n` (what `Sem.apply` of a struct value calls) -/
+def applyFnName (n : String) : String := "inherent#" ++ n ++ "#" ++ n ++ "#apply"
+
+/-- `go e`: `e` is a closure environment of a struct type whose `apply` function (found by `compile_go` through
+    `find_closure_apply_fn`, and called by `Sem.apply` under the name `applyFnName`) is a one-parameter function of the
+    file in `G`, not shadowed / special / extern; the expression has type unit -/
+def goOK (env : Env) (file : AFile) (G : List String) (Γ : Ctx) (e : Imm) (ty : Ty) : Bool :=
+  match e.ty with
+  | .struct n =>
+    immOK env file G Γ e && scalarEq ty .unit &&
+    (match findClosureApplyFn env (.struct n) with
+     | some (name, _, _) =>
+       name == applyFnName n && (lookupTy Γ name).isNone && rn name == name && !specialCallees.contains name &&
+       (env.getExternFn name).isNone && !isEntry name &&
+       (match file.find? (·.name == name) with
+        | some g => G.contains name && scalarEqs (g.params.map (·.2)) [.struct n]
+        | none => false)
+     | none => false)
+  | _ => false
+
+/-- the statement-only form `go e` (not an expression of the emitted Go) -/
+def isGoC : CExpr → Bool
+  | .go _ _ => true
+  | _ => false
+
 /-- how the heads of the arms of a `match` are read -/
 inductive ArmKind where
   /-- type switch on the enum variable `x` of type `sty` -/
@@ -513,6 +538,7 @@ def fragC (env : Env) (file : AFile) (G : List String) (Γ : Ctx) (K : KCtx) : C
        -- the first arm in place (else the default); the other arms are dead
        if arms.isEmpty then isSomeD d && fragD env file G Γ K ty d else fragFirst env file G Γ K ty arms
      | sty => switchTy sty && fragArms env file G Γ K (.valK sty) ty arms && fragD env file G Γ K ty d)
+  | .go e ty => goOK env file G Γ e ty
   | _ => false
 /-- an `AExpr` of the fragment; its value has type `aTy e` -/
 def fragA (env : Env) (file : AFile) (G : List String) (Γ : Ctx) (K : KCtx) : AExpr → Bool
@@ -567,6 +593,7 @@ def calleesC (bs : List String) : CExpr → List String
   | .ite _ t e _ => calleesA bs t ++ calleesA bs e
   | .while c b _ => calleesA bs c ++ calleesA bs b
   | .matchE _ arms d _ => calleesArms bs arms ++ calleesD bs d
+  | .go e _ => (match e.ty with | .struct n => [vn (applyFnName n)] | _ => [])
   | _ => []
 def calleesA (bs : List String) : AExpr → List String
   | .ret c => calleesC bs c
@@ -940,7 +967,7 @@ def reasonC (env : Env) (file : AFile) (G : List String) (Γ : Ctx) (K : KCtx) :
           else "node:enum-field-get(variant-not-fixed-by-an-arm)")
   | .toDyn _ _ _ _ => some "node:to-dyn"
   | .dynCall _ _ _ _ _ => some "node:dyn-call"
-  | .go _ _ => some "node:go"
+  | .go e ty => if goOK env file G Γ e ty then none else some "node:go"
   | .proj e idx ty =>
     if fragC env file G Γ K (.proj e idx ty) then none
     else (immReason env file G Γ e).orElse fun _ => some ("node:tuple-proj(" ++ tyReason env e.ty ++ ")")
